@@ -9,7 +9,9 @@ M(n, k) == [name |-> n, kind |-> k]
 S(n, ms) == [name |-> n, methods |-> ms]
 \* sibling: the same plugin invocation also generates -- first -- another file, from another package, that declares
 \* services and methods with the same names (the v1 / v2 layout); what is generated for this file does not depend on it
-D(p, ss, gp, dep, sib) == [pkg |-> p, services |-> ss, gopkg |-> gp, deprecated |-> dep, sibling |-> sib]
+\* msgs: the methods take and return messages declared in this very file (so the generated code imports the file's
+\* own Go package, whatever its name), not google.protobuf.Empty
+D(p, ss, gp, dep, sib) == [pkg |-> p, services |-> ss, gopkg |-> gp, deprecated |-> dep, sibling |-> sib, msgs |-> FALSE]
 Pkgs == {"", "acme", "acme.ping.v1"}
 GoPkgs == {"example.com/gen/t;tpb", "example.com/gen/t"}
 \* one service, one method: every name class x kind x package form
@@ -26,7 +28,12 @@ InitC == \E p \in Pkgs, sib \in BOOLEAN : InitWith(D(p, <<>>, "example.com/gen/t
 InitD == \E p \in Pkgs, k \in Kinds, pair \in {<<"Foo", "NewFoo">>, <<"NewFoo", "Foo">>, <<"X", "UnimplementedX">>, <<"foo", "Foo">>,
                                             <<"Foo", "New_Foo">>} :
            InitWith(D(p, <<S(pair[1], <<M("Do", k)>>), S(pair[2], <<M("Do", "unary")>>)>>, "example.com/gen/t;tpb", FALSE, FALSE))
-MCInit == InitA \/ InitB \/ InitC \/ InitD
+\* Go package names that meet the packages the generated code imports itself (net/http, context, errors, strings)
+InitE == \E p \in Pkgs, k1 \in Kinds, k2 \in Kinds,
+            gp \in {"example.com/gen/http;http", "example.com/gen/api/http", "example.com/gen/context", "example.com/gen/errors;errors",
+                    "example.com/gen/strings", "example.com/gen/connect;connect", "example.com/gen/t;tpb"} :
+           InitWith([D(p, <<S("Alpha", <<M("One", k1), M("Two", k2)>>)>>, gp, FALSE, FALSE) EXCEPT !.msgs = TRUE])
+MCInit == InitA \/ InitB \/ InitC \/ InitD \/ InitE
 MCSpec == MCInit /\ [][Next]_vars
 GenSpec == MCInit /\ [][FALSE]_vars
 Emit == pc = "start" => PrintT(ToJson(sc))
